@@ -246,6 +246,21 @@ fn main() {
     let base = sv.len();
     sv.extend(vlong.iter());
     run_space(&mut ctx, "very-long", &sv, if t { 3 } else { 2 }, &probes_long, base);
+    // rear lengths crossing the next boundary of the variable-byte code (128^3 + 128^2 + 128 = 2 113 664): thorough only
+    if t {
+        for d in [-1i64, 0, 1] {
+            let big = "a".repeat((2_113_664i64 + d) as usize);
+            let bigc = format!("{big}c");
+            for list in [vec![big.as_str(), "b"], vec![big.as_str(), "ab", "b"], vec!["", big.as_str(), ""], vec![bigc.as_str(), "a"], vec![big.as_str(), bigc.as_str(), "b"]] {
+                for &k in &[1usize, 2, 4] {
+                    if ctx.case(|| format!("RearCodedList family=rear-length-2113664{d:+} k={k} list of {} strings", list.len())) {
+                        ctx.nontrivial();
+                        check(&mut ctx, &list, k, &["".to_string(), "a".to_string(), "b".to_string(), big.clone(), bigc.clone(), "ab".to_string(), "c".to_string()]);
+                    }
+                }
+            }
+        }
+    }
     // long sorted lists with shared prefixes (binary search over many blocks)
     let words: Vec<String> = (0..if t { 600 } else { 150 }).map(|i| format!("k{:03}{}", i / 3, ["", "x", "xy"][i % 3])).collect();
     let wl: Vec<&str> = words.iter().map(|s| s.as_str()).collect();
